@@ -142,6 +142,9 @@ def add_wrapper(sch: Schema, t, kind: str):
 
 def maybe_wrap(rng, sch: Schema, t, p=0.12):
     ok = t[0] in WRAPPABLE or (t[0] == "atom" and t[1] in ("int", "str"))
+    if t[0] == "opt" and not wrapper_of(t) and rng.random() < p:
+        # a nullable type hidden behind a wrapper keeps its None test (/repo fc913d1, 58abead)
+        return add_wrapper(sch, t, rng.choice(["annotated", "alias", "annotated", "newtype"]))
     if ok and rng.random() < p:
         kind = rng.choice(["annotated", "newtype", "alias", "annotated", "newtype", "alias", "tvbound"])
         if kind == "tvbound" and t[0] == "atom":
@@ -179,10 +182,21 @@ def gen_ty0(rng, sch: Schema, depth: int, lower_classes: list, extras: bool):
         return ("opt", t)
     if r < 0.50:
         return gen_bare(rng)
-    if r < 0.56 and WIRE_SIDE[0]:
+    if r < 0.56:
         if not UNION_IN_MODEL:
             sch.model = False
-        return gen_union_containers(rng, sch, lower_classes)
+        if not WIRE_SIDE[0] and (extras or rng.random() < 0.3):
+            return gen_union(rng, sch, depth, lower_classes)
+        for _ in range(20):
+            u = gen_union_containers(rng, sch, lower_classes)
+            if WIRE_SIDE[0]:
+                return u
+            try:        # encode side: the classification of union findings relies on the Coq flags
+                coq_union_pack(u, sch)
+                return u
+            except ValueError:
+                continue
+        return gen_union(rng, sch, depth, lower_classes)
     if r < 0.66:
         o = rng.choice(["list", "list", "list", "set", "frozenset", "deque", "Sequence", "MutableSequence",
                         "AbstractSet", "MutableSet", "list", "set"])
@@ -266,13 +280,15 @@ def gen_union_containers(rng, sch, lower_classes):
     members = []
     for _ in range(rng.choice([1, 1, 2])):
         m = container_member(rng, sch, lower_classes)
-        if rng.random() < 0.15 and m[0] in WRAPPABLE:
+        if WIRE_SIDE[0] and rng.random() < 0.15 and m[0] in WRAPPABLE:
             m = add_wrapper(sch, m, rng.choice(["annotated", "newtype", "alias"]))
         if m not in members:
             members.append(m)
     for a in rng.sample(["int", "str", "float", "bool", "none"], rng.choice([0, 1, 1, 2])):
         members.append(("atom", a))
     if len(members) < 2:
+        members.append(("atom", rng.choice(["int", "str"])))
+    if len(members) == 2 and ("atom", "none") in members:       # Union[X, None] is Optional[X], not a union
         members.append(("atom", rng.choice(["int", "str"])))
     rng.shuffle(members)
     if rng.random() < 0.2 and ("atom", "none") not in members:
@@ -338,7 +354,7 @@ def gen_schema(rng, depth: int, extras: bool, want_root_base=None) -> Schema:
             t = gen_ty(rng, sch, depth, lower, extras)
             if rng.random() < 0.05 and t[0] not in ("any", "opq", "dc", "opt", "union"):
                 t = ("pass", t)
-            elif t[0] in WRAPPABLE and rng.random() < 0.12:
+            elif (t[0] in WRAPPABLE or t[0] == "opt") and rng.random() < 0.12:
                 t = add_wrapper(sch, t, "final")
             fields.append((f"f{j}", t))
         # make sure lower classes are reachable now and then
@@ -354,12 +370,15 @@ def gen_schema(rng, depth: int, extras: bool, want_root_base=None) -> Schema:
                 t = ("opt", t)
             fields.append((f"f{nf}", t))
         classes[i] = {
-            "name": f"C{i}", "base": base,
-            "sup": rng.random() < 0.4,
+            "name": f"C{i}", "base": base, "_defaults_pending": True,
+            "sup": rng.random() < 0.4, "lazy": rng.random() < 0.2,
             "dialect": (rng.randrange(nd) if rng.random() < 0.55 else None),
             "fields": fields,
         }
     sch.classes = classes
+    for c in sch.classes:
+        c.pop("_defaults_pending", None)
+        add_defaults(rng, c)
     return sch
 
 
@@ -402,8 +421,10 @@ def gen_schema_focus(rng) -> Schema:
             elif wrap == "opt":
                 t = ("opt", t)
             fields.insert(rng.randrange(len(fields) + 1), ("g", t))
-        sch.classes.append({"name": f"C{i}", "base": base, "sup": rng.random() < 0.4,
+        sch.classes.append({"name": f"C{i}", "base": base, "sup": rng.random() < 0.4, "lazy": rng.random() < 0.3,
                             "dialect": (rng.randrange(nd) if rng.random() < 0.5 else None), "fields": fields})
+    for c in sch.classes:
+        add_defaults(rng, c)
     return sch
 
 
@@ -547,20 +568,54 @@ def schema_src(sch: Schema, top=None) -> str:
         out.append("@dataclass")
         out.append(f"class {c['name']}" + (f"({base}):" if base else ":"))
         for fn, ft in c["fields"]:
+            d = c.get("defaults", {}).get(fn)
             if ft[0] == "pass":
                 out.append(f"    {fn}: {ty_src(ft, sch)} = field(metadata={{'serialization_strategy': pass_through}})")
+            elif d and d.startswith("="):
+                out.append(f"    {fn}: {ty_src(ft, sch)} {d}")
+            elif d:
+                out.append(f"    {fn}: {ty_src(ft, sch)} = field(default_factory={d})")
             else:
                 out.append(f"    {fn}: {ty_src(ft, sch)}")
         out.append("    class Config(BaseConfig):")
         out.append("        serialization_strategy = {Opaque: pass_through}")
         if c["sup"]:
             out.append("        code_generation_options = [ADD_DIALECT_SUPPORT]")
+        if c.get("lazy"):
+            out.append("        lazy_compilation = True")      # methods compiled on first use: same sharing behaviour
         if c["dialect"] is not None:
             out.append(f"        dialect = D{c['dialect']}")
         out.append("")
     if top is not None:
         emit_records(top)
     return "\n".join(out)
+
+
+def default_of(ft):
+    """a default for a field of this type: default_factory for the mutable containers, a literal for atoms"""
+    t = strip_wrappers(ft)
+    if wrapper_of(ft) and wrapper_of(ft)[0] == "final":
+        return None
+    if bare_spelling(t):
+        t = t[:-1]
+    if t[0] == "seq" and t[1] in ("list", "set", "deque", "MutableSequence", "Sequence"):
+        return {"list": "list", "set": "set", "deque": "collections.deque", "MutableSequence": "list", "Sequence": "list"}[t[1]]
+    if t[0] == "map" and t[1] in ("dict", "OrderedDict", "Mapping", "MutableMapping"):
+        return {"dict": "dict", "OrderedDict": "collections.OrderedDict", "Mapping": "dict", "MutableMapping": "dict"}[t[1]]
+    if t[0] == "atom" and t[1] in ("int", "str"):
+        return "=7" if t[1] == "int" else "='dflt'"
+    return None
+
+
+def add_defaults(rng, c):
+    """give some fields a default / default_factory; defaulted fields go last (dataclass rule)"""
+    dfl = {}
+    for fn, ft in c["fields"]:
+        d = default_of(ft) if ft[0] != "pass" else None
+        if d and rng.random() < 0.3:
+            dfl[fn] = d
+    c["defaults"] = dfl
+    c["fields"] = [f for f in c["fields"] if f[0] not in dfl] + [f for f in c["fields"] if f[0] in dfl]
 
 
 def field_order(c):
@@ -643,7 +698,7 @@ def gen_value_src(rng, t, sch: Schema, depth: int, wire: bool = False) -> str:
         # (interned () / frozenset() would alias typed results)
         return gen_any_src(rng, 2, True) if wire else gen_value_src(rng, t[1], sch, depth, wire=False)
     if k == "opt":
-        if rng.random() < 0.3 and not NO_NONE[0] and not wrapper_of(t):
+        if rng.random() < 0.3 and not NO_NONE[0]:
             return "None"
         return gen_value_src(rng, t[1], sch, depth, wire)
     if k == "seq":
@@ -716,11 +771,11 @@ def gen_value_src(rng, t, sch: Schema, depth: int, wire: bool = False) -> str:
             NATURAL[0] = old
     if k == "dc":
         c = sch.classes[t[1]]
+        dfl = c.get("defaults", {})
+        keep = [(fn, ft) for fn, ft in c["fields"] if fn not in dfl or rng.random() < 0.5]
         if wire:
-            return "{" + ", ".join(f"{fn!r}: " + gen_value_src(rng, ft, sch, depth - 1, True)
-                                   for fn, ft in c["fields"]) + "}"
-        return c["name"] + "(" + ", ".join(f"{fn}=" + gen_value_src(rng, ft, sch, depth - 1, False)
-                                           for fn, ft in c["fields"]) + ")"
+            return "{" + ", ".join(f"{fn!r}: " + gen_value_src(rng, ft, sch, depth - 1, True) for fn, ft in keep) + "}"
+        return c["name"] + "(" + ", ".join(f"{fn}=" + gen_value_src(rng, ft, sch, depth - 1, False) for fn, ft in keep) + ")"
     raise ValueError(t)
 
 
@@ -1196,7 +1251,7 @@ def coq_ty(t, sch) -> str:
         return inner if w[0] == "tvbound" else f"(TWrap {inner})"      # a bound TypeVar is handled as Optional[bound]
     k = t[0]
     if k == "atom":
-        return "TAtom"
+        return "TNone" if t[1] == "none" else "TAtom"
     if k == "leaf":
         return {"date": "(TLeaf LDate)", "decimal": "(TLeaf LDecimal)"}[t[1]]
     if k == "any":
@@ -1217,12 +1272,34 @@ def coq_ty(t, sch) -> str:
         return f"(TMap {MAP_ORIGINS[t[1]][2]} {coq_ty(t[2], sch)} {coq_ty(t[3], sch)})"
     if k == "dc":
         return f"(TDC {t[1]})"
-    if k == "union" and WIRE_SIDE_COQ[0]:
-        return coq_union(t, sch)
+    if k == "union":
+        return coq_union(t, sch) if WIRE_SIDE_COQ[0] else coq_union_pack(t, sch)
     raise ValueError(t)
 
 
-WIRE_SIDE_COQ = [False]     # unions are part of the Coq grammar on the decode side only
+WIRE_SIDE_COQ = [False]     # which of the two union models (decode: by wire class; encode: pack_union dispatch) applies
+
+
+def coq_union_pack(t, sch) -> str:
+    """encode side: Share.v models pack_union (identity members by exact class, then try each packer).  Outside
+    the model (ValueError -> oracle only): wrapped / NewType / Any / Optional members (compared by objects that
+    are never a class), two dataclass members (codec path calls the first one's packer statically on any
+    instance), a fixed tuple next to a mapping with int keys (x[0] works on such a mapping)."""
+    ms = list(t[1])
+    if any(wrapper_of(m) for m in ms):
+        raise ValueError("wrapped union member")
+    kinds = [m[0] for m in ms]
+    for m in ms:
+        if m[0] not in ("atom", "leaf", "opq", "seq", "tupv", "tup", "nt", "map", "dc"):
+            raise ValueError("union member outside the model")
+        if m[0] == "leaf" and m[1] not in ("date", "decimal"):
+            raise ValueError("union member outside the model")
+    if kinds.count("dc") > 1:
+        raise ValueError("two dataclass members")
+    if any(k in ("tup", "nt") for k in kinds) and any(m[0] == "map" and strip_wrappers(m[2]) in (("atom", "int"), ("any",))
+                                                      for m in ms):
+        raise ValueError("fixed tuple next to an int-keyed mapping")
+    return "(TUnion [" + "; ".join(coq_ty(m, sch) for m in ms) + "])"
 
 
 def coq_union(t, sch) -> str:
@@ -1250,8 +1327,7 @@ def coq_union(t, sch) -> str:
             raise ValueError("a str would be iterated by an earlier member")
     if seqs and maps and seqs[0] < maps[0]:
         raise ValueError("a mapping would be iterated by an earlier member")
-    body = "(TUnion [" + "; ".join(coq_ty(m, sch) for m in ms) + "])"
-    return f"(TOpt {body})" if has_none else body
+    return "(TUnion [" + "; ".join(coq_ty(m, sch) for m in t[1]) + "])"
 
 
 def coq_classes(sch: Schema) -> str:
@@ -1395,7 +1471,7 @@ def union_probe_cases(rng, side: str):
             sch = Schema()
             sch.dialects = [["list", "dict"]]
             sch.tvars = tvars
-            sch.model = UNION_IN_MODEL and side == "unpack"
+            sch.model = UNION_IN_MODEL
             sch.classes = [{"name": "C0", "base": "dict", "sup": False, "dialect": None,
                             "fields": [(f"f{j}", t) for j, t in enumerate(fields[k:k + chunk])]}]
             c = Case()
@@ -1443,6 +1519,8 @@ def wrapper_probe_cases(rng, side: str):
             else:
                 for j, ct in enumerate(WRAP_CONTS):
                     fields.append((f"f{j}", add_wrapper(sch, ct, kind)))
+                    if kind != "tvbound" and j % 3 == 0:
+                        fields.append((f"o{j}", add_wrapper(sch, ("opt", ct), kind)))
                     if kind != "final":
                         inner = add_wrapper(sch, ct, kind)
                         fields.append((f"g{j}", ("seq", "list", inner) if j % 2 else ("map", "dict", ("atom", "str"), inner)))
@@ -1474,6 +1552,12 @@ def run_case(c: Case):
     except Exception as e:       # noqa
         c.res = None
         c.exc = f"{type(e).__name__}: {e}"
+    c.res2 = None
+    if c.exc is None:
+        try:
+            c.res2 = eval(c.call_src, ns)
+        except Exception:       # noqa
+            c.res2 = None
     c.after = snapshot(c.v)
     return c
 
@@ -1559,6 +1643,17 @@ def oracle(ctx, c: Case):
                  replay_dict(c, {"shared_paths": describe(shared.values(), c)}, {"shared_paths": describe(exp_ids.values(), c)}),
                  {**sig_base, "kind": "missed-share", "cause": cause})
         failed = True
+    # two calls: their results may have nothing mutable in common but objects of the argument (a shared default
+    # object or a cached container would be hidden sharing between results)
+    if c.res2 is not None:
+        ids2 = {id(o) for _, o in walk(c.res2) if is_mutable(o)}
+        common = [o for i, o in res_ids.items() if i in ids2 and i not in in_ids]
+        if common:
+            ctx.fail(f"{c.side}: two calls of {c.call_src} return structures that share mutable container(s) "
+                     f"{[type(o).__name__ for o in common][:4]} that are not the argument's",
+                     replay_dict(c, "results of two calls share new containers", "disjoint apart from the argument's objects"),
+                     {**sig_base, "kind": "results-share"})
+            failed = True
     # behavioural double check: damaging what is new in the result must not reach the argument
     keep = {id(o) for _, o in walk(c.v)}
     mutate_fresh(c.res, keep)
@@ -1610,7 +1705,8 @@ def expected_any(t, w, sch: Schema, out: list):
                 expected_any(m, w, sch, out)
     elif k == "dc":
         for fn, ft in sch.classes[t[1]]["fields"]:
-            expected_any(ft, w[fn], sch, out)
+            if fn in w:
+                expected_any(ft, w[fn], sch, out)
 
 
 def wire_fits(t, w, sch: Schema) -> bool:
@@ -1645,17 +1741,18 @@ def wire_fits(t, w, sch: Schema) -> bool:
         return any(wire_fits(m, w, sch) for m in t[1])
     if k == "dc":
         c = sch.classes[t[1]]
-        return isinstance(w, dict) and all(fn in w and wire_fits(ft, w[fn], sch) for fn, ft in c["fields"])
+        return isinstance(w, dict) and all((fn in w and wire_fits(ft, w[fn], sch)) or (fn not in w and fn in c.get("defaults", {}))
+                                           for fn, ft in c["fields"])
     return False
 
 
 # ---------------------------------------------------------------------------
 # correspondence with the Coq model
 # ---------------------------------------------------------------------------
-def coq_case(c: Case) -> str | None:
+def coq_case(c: Case, allow_exc: bool = False) -> str | None:
     """a term of type pcase (ShareWire.v) or None when the case is outside the Coq grammar"""
     sch = c.sch
-    if not sch.model or c.exc is not None:
+    if not sch.model or (c.exc is not None and not allow_exc):
         return None
     vw = entry_view(c.entry, sch, use_readme=False)
     WIRE_SIDE_COQ[0] = c.side == "unpack"
@@ -1671,7 +1768,7 @@ def coq_case(c: Case) -> str | None:
             v_in = coq_value(c.v, labels)
         return ("{| pc_classes := " + coq_classes(sch) + "; pc_fmt := " + coq_dialect(vw.fmt) + "; pc_lp := " + lp +
                 "; pc_call := " + call + "; pc_ntop := " + coq_origin_list(vw.N) + "; pc_ty := " + coq_ty(c.top, sch) +
-                "; pc_in := " + v_in + "; pc_out := " + coq_value(c.res, labels, N0) + " |}")
+                "; pc_in := " + v_in + "; pc_out := " + ("VNone" if c.exc is not None else coq_value(c.res, labels, N0)) + " |}")
     except (ValueError, KeyError):
         return None
 
@@ -1686,6 +1783,10 @@ def coq_wire(w, t, sch, labels) -> str:
         return f"(VMap KDict {lab} [{kvs}])"
     if k == "opt" and w is not None:
         return coq_wire(w, t[1], sch, labels)
+    if k == "union":
+        for m in t[1]:
+            if wire_fits(m, w, sch):
+                return coq_wire(w, m, sch, labels)
     if k == "seq" and isinstance(w, list):
         return f"(VSeq KList {labels[id(w)]} [" + "; ".join(coq_wire(x, t[2], sch, labels) for x in w) + "])"
     if k == "tupv" and isinstance(w, list):
@@ -1712,6 +1813,31 @@ def in_model_grammar(c: Case) -> bool:
         return True
     except (ValueError, KeyError):
         return False
+
+
+class Pending:
+    """collects the oracle's failures of one side until the Coq flags of the cases are known"""
+    def __init__(self, ctx):
+        self.ctx, self.items, self.cur = ctx, [], None
+
+    def fail(self, what, replay, signature):
+        self.items.append((self.cur, what, replay, signature))
+
+    def hist(self, *a, **k):
+        self.ctx.hist(*a, **k)
+
+
+def has_union(c: Case) -> bool:
+    return mentions(c.top, "union") or any(mentions(ft, "union") for k in c.sch.classes for _, ft in k["fields"])
+
+
+def coq_flag(name, terms, fun):
+    """indices of the cases on which the boolean Coq function `fun : pcase -> bool` is true (None: Coq failed)"""
+    if not terms:
+        return []
+    idx, log = vlib.coq_bad_idx(name, "Share ShareWire", "", "", terms, f"fun c => negb ({fun} c)", "pcase", shard=150,
+                                needs=["theories/ShareWire.vo"])
+    return idx
 
 
 def correspondence(ctx, cases, side):
@@ -1771,13 +1897,29 @@ def run(ctx: vlib.Ctx):
                            "Any / pass_through positions are excepted in both directions (DESIGN 3.1 note ii)")
     ctx.assumptions.append("mutation-freedom is established on the real library by snapshot/deep-equal comparison over "
                            "generated inputs; in the Coq model it holds by construction (pure functions)")
-    ctx.theorems("props/C18_share.vo", THEOREMS)
+    # (T) the copy / by-reference / comprehension decision of the model is the function translated from
+    # pack.py:pack_collection on this run (kernel K15)
+    ctx.theorems("props/C18_kernel.vo", ["C18_seq_decision_is_source", "C18_map_decision_is_source"], kernels=["K15"])
+    br = ctx.theorems("props/C18_share.vo", THEOREMS)
+    if not ctx.quick() and br.ok:
+        # second opinion: the independent checker re-validates the compiled library and reports every axiom
+        rc, out, secs = vlib.run(["timeout", "900", "coqchk", "-silent", "-o", "-Q", "theories", "Verif", "-Q", "props",
+                                  "VerifProps", "VerifProps.C18_share"], cwd=vlib.COQ, timeout=930)
+        import re as _re
+        m = _re.search(r"\* Axioms:\s*(.*?)\n\s*\n", out, _re.S)
+        axioms = " ".join(m.group(1).split()) if m else "?"
+        ok = rc == 0 and axioms == "<none>"
+        ctx.obligation("coqchk -o VerifProps.C18_share", ok, f"rc={rc} Axioms: {axioms} ({secs:.0f}s)")
+        ctx.trusted.append(f"coqchk -o on props/C18_share.vo and its cone: Axioms: {axioms}")
+        if not ok:
+            ctx.not_shown("coqchk", out[-1500:])
 
     n_pack = ctx.budget(420, 3600)
     n_unpack = ctx.budget(180, 1200)
     for side, n in (("pack", n_pack), ("unpack", n_unpack)):
         cases = []
         crashes = []       # the model is total on conforming inputs of its grammar: the library must be, too
+        pend = Pending(ctx)
         attempts = 0
         probes = fixed_cases(ctx.rng, side) + union_probe_cases(ctx.rng, side) + wrapper_probe_cases(ctx.rng, side)
         while len(cases) < n and attempts < n * 3:
@@ -1795,17 +1937,47 @@ def run(ctx: vlib.Ctx):
                 continue
             if c.exc is not None and in_model_grammar(c):
                 crashes.append((c, "call raised " + c.exc))
+                c.coq_exc = coq_case(c, allow_exc=True)
             c.coq = coq_case(c)         # before the oracle damages the result
             if mentions(c.top, "union") or any(mentions(ft, "union") for k in c.sch.classes for _, ft in k["fields"]):
                 ctx.hist("union_cases", f"{side}:" + ("model+oracle" if c.coq else "oracle-only"))
             cases.append(c)
             hist_case(ctx, c)
             ctx.count(shape_key(c))
-            oracle(ctx, c)
+            pend.cur = c
+            oracle(pend, c)
             if len(ctx.coverage["samples"]) < 4 and c.exc is None:
                 ctx.sample({"side": side, "call": c.call_src, "value": c.value_src[:200],
                             "fields_root": [f"{fn}: {ty_src(ft, c.sch)}" for fn, ft in c.sch.classes[0]["fields"]]})
-        correspondence(ctx, cases, side)
+        bad = correspondence(ctx, cases, side)
+        # Coq-side domain flags: udet (does the union dispatch land on the member the value belongs to?) and
+        # accepts (does the modelled packer raise on this value?)
+        udet_false = set()
+        if side == "pack":
+            ucases = [c for c in cases if c.coq and has_union(c)]
+            ok_idx = coq_flag("c18_udet", [c.coq for c in ucases], "pack_udet")
+            if ok_idx is None:
+                ctx.not_shown("domain flags udet", "coq evaluation failed")
+            else:
+                udet_false = {id(c) for i, c in enumerate(ucases) if i not in set(ok_idx)}
+                ctx.hist("union_pack_domain", "udet", len(ucases) - len(udet_false))
+                ctx.hist("union_pack_domain", "outside-udet", len(udet_false))
+            raised = [(c, why) for c, why in crashes if getattr(c, "coq_exc", None)]
+            acc_idx = coq_flag("c18_accepts", [c.coq_exc for c, _ in raised], "pack_accepts")
+            if acc_idx is not None:
+                agree = {id(raised[i][0]) for i in range(len(raised)) if i not in set(acc_idx)}
+                for c, why in raised:
+                    if id(c) in agree:
+                        ctx.hist("outcome", "union-method-raises-in-model-and-library")
+                crashes = [(c, why) for c, why in crashes if id(c) not in agree]
+        badset = {id(c) for c in (bad or [])}
+        for c, what, rp, sig in pend.items:
+            if (sig.get("kind") in ("extra-share", "missed-share") and sig.get("cause") == "other" and side == "pack"
+                    and c is not None and id(c) in udet_false and id(c) not in badset):
+                # the faithful model predicts exactly this result and says the union dispatch leaves the member the
+                # value belongs to (C18_share_union_refuted)
+                sig = {**sig, "cause": "union-dispatch"}
+            ctx.fail(what, rp, sig)
         cname = f"library-total-where-model-is ({side})"
         det = ""
         if crashes:
@@ -1819,7 +1991,8 @@ def run(ctx: vlib.Ctx):
             drop_module(c.mod)
 
 
-THEOREMS = ["C18_wrapper_transparent", "C18_share", "C18_decode_fresh", "C18_default_fresh", "C18_decode_all_fresh", "C18_decode_union_fresh", "C18_no_mutation",
+THEOREMS = ["C18_wrapper_transparent", "C18_share", "C18_share_unionfree", "C18_share_union_refuted",
+            "C18_decode_dialect_independent", "C18_decode_fresh", "C18_default_fresh", "C18_decode_all_fresh", "C18_decode_union_fresh", "C18_no_mutation",
             "C18_decode_no_mutation", "C18_share_partial", "C18_share_full_refuted"]
 
 
